@@ -11,6 +11,10 @@ Lemma gen_v4_as_decimal_broadcast_ok self : wf 32 self -> gen_v4_as_decimal_broa
 Proof. intros Hs. repeat autounfold with genip. abstract_obj 32 self Hs. finish. Qed.
 Lemma gen_v6_as_decimal_network_maxint_ok self : wf 128 self -> gen_v6_as_decimal_network_maxint self = Ok (lastaddr 128 self).
 Proof. intros Hs. repeat autounfold with genip. abstract_obj 128 self Hs. finish. Qed.
+Lemma gen_v4_int_ok self : gen_v4_int self = Ok (addr self) /\ gen_v4_index self = Ok (addr self).
+Proof. repeat autounfold with genip. split; finish. Qed.
+Lemma gen_v6_int_ok self : gen_v6_int self = Ok (addr self) /\ gen_v6_index self = Ok (addr self).
+Proof. repeat autounfold with genip. split; finish. Qed.
 Lemma c_maxint4 : c_IPV4_MAXINT = maxint 32. Proof. reflexivity. Qed.
 Lemma c_maxint6 : c_IPV6_MAXINT = maxint 128. Proof. reflexivity. Qed.
 Lemma c_maxplen4 : c_IPV4_MAX_PREFIXLEN = 32. Proof. reflexivity. Qed.
